@@ -388,3 +388,38 @@ def ev_ctor_table(p, q):
         except Exception:
             acc.append(0)
     return {"op": "ctor_table", "p": p, "q": q, "acc": acc}
+
+
+# --------------------------------------------------------------------------
+# beyond the listed properties: unknown-group elements (all curve points), util helpers
+# --------------------------------------------------------------------------
+def _upoint(basic, h):
+    return basic.Zero if h == "zero" else basic.bytes_to_unknown_group_element(unhx(h))
+
+
+def _uout(f):
+    try:
+        e = f()
+        return {"t": "elem", "enc": hx(e.to_bytes()), "cls": type(e).__name__}
+    except Exception as ex:
+        return {"t": "err", "v": type(ex).__name__}
+
+
+def ev_u_op(uni, gname, fn, a, b=None, n=0):
+    basic = uni.basic[gname]
+    if fn == "add":
+        out = _uout(lambda: _upoint(basic, a).add(_upoint(basic, b)))
+    else:
+        out = _uout(lambda: _upoint(basic, a).scalarmult(n))
+    return {"op": "u_op", "grp": gname, "fn": fn, "a": a, "b": b or "", "n": numhex(n), "out": out, "w": 3}
+
+
+def ev_u_dec(uni, gname, b):
+    basic = uni.basic[gname]
+    return {"op": "u_dec", "grp": gname, "b": hx(b), "out": _uout(lambda: basic.bytes_to_unknown_group_element(b))}
+
+
+def ev_mask_table(top):
+    sp = load_repo()
+    res = [sp.util.generate_mask(m) for m in range(1, top + 1)]
+    return {"op": "mask_table", "masks": [r[0] for r in res], "nbytes": [r[1] for r in res], "w": max(1, top // 100)}
